@@ -65,7 +65,9 @@ type Case struct {
 	Opts   Opts        `json:"opts"`
 	S      *Structured `json:"structured,omitempty"`
 	Ended  bool        `json:"h2_end_stream_on_headers,omitempty"`
-	Model  bool        `json:"model_compared"` // emit an H1Case for the Coq model
+	H3     *H3Extra    `json:"h3,omitempty"`
+	Pre    int         `json:"exchanges_before_on_same_client,omitempty"` // rounds[0..Pre) are served to plain GETs first, the last round to the observed call
+	Model  bool        `json:"model_compared"`                            // emit an H1Case for the Coq model
 	Flood  int64       `json:"flood_heap_bound,omitempty"`
 	Input  string      `json:"input,omitempty"` // parser-level cases: the header value (hex in descriptions)
 }
@@ -384,7 +386,7 @@ func genCases(seed uint64, quick bool) []*Case {
 	plainOpts := Opts{DisableAutoDecode: true, DisableCompression: true}
 
 	// A. grammar responses (mostly valid, oddities) and B. their mutations
-	for i, n := 0, scale(700, 24000); i < n; i++ {
+	for i, n := 0, scale(420, 24000); i < n; i++ {
 		g := &gen{rng: r.Fork()}
 		data, shape := g.response()
 		kind := "grammar"
@@ -408,7 +410,7 @@ func genCases(seed uint64, quick bool) []*Case {
 	// C. fixed corpus under every single stage and everything at once
 	for _, fs := range fixedStreams() {
 		for _, sn := range append([]string{"", "ALL"}, stageNames...) {
-			if quick && sn != "" && sn != "ALL" && r.Chance(70) {
+			if quick && sn != "" && sn != "ALL" && r.Chance(80) {
 				continue
 			}
 			c := &Case{Kind: "h1", Method: "GET", Shape: fs.shape + "+opts:" + sn, Model: true}
@@ -427,7 +429,7 @@ func genCases(seed uint64, quick bool) []*Case {
 		}
 	}
 	// D. structured responses: header-value fuzz + stage observation
-	for i, n := 0, scale(900, 30000); i < n; i++ {
+	for i, n := 0, scale(520, 30000); i < n; i++ {
 		c := genStructured(r, len(out))
 		c.Model = true
 		add(c)
@@ -514,10 +516,56 @@ func genCases(seed uint64, quick bool) []*Case {
 			add(c)
 		}
 	}
+	// K. several exchanges on one kept-alive connection: the limits hold for every response, not only the first
+	for _, lim := range []int{200, 1000} {
+		for _, pre := range []int{1, 2} {
+			for _, d := range []int{-30, 0, 1, 40, 300} {
+				c := &Case{Kind: "h1", Method: "GET", Shape: fmt.Sprintf("seq%d-limit-%d%+d", pre, lim, d), Model: true, Pre: pre}
+				c.Opts = plainOpts
+				c.Opts.MaxHeader = lim
+				for j := 0; j < pre; j++ {
+					c.Rounds = append(c.Rounds, Round{Data: []byte(final200(fmt.Sprintf("warm%d", j))), End: "keep"})
+				}
+				base := "HTTP/1.1 200 OK\r\nContent-Length: 2\r\nX-Pad: "
+				tail := "\r\n\r\n"
+				pad := lim + d - len(base) - len(tail)
+				for pad > 150 {
+					base += strings.Repeat("p", 100-len("\r\nX-Pad: ")) + "\r\nX-Pad: "
+					pad -= 100
+				}
+				c.Rounds = append(c.Rounds, Round{Data: []byte(base + strings.Repeat("p", pad) + tail + "hi"), End: "fin"})
+				add(c)
+			}
+		}
+	}
+	for i, n := 0, scale(12, 400); i < n; i++ {
+		pre := r.Range(1, 2)
+		c := &Case{Kind: "h1", Method: "GET", Shape: fmt.Sprintf("seq%d-grammar", pre), Model: true, Pre: pre, Opts: plainOpts}
+		for j := 0; j < pre; j++ {
+			c.Rounds = append(c.Rounds, Round{Data: []byte(final200(strings.Repeat("w", r.Intn(40)))), End: "keep", Segs: randSegs(r)})
+		}
+		g := &gen{rng: r.Fork()}
+		data, shape := g.response()
+		c.Shape += ":" + shape
+		c.Rounds = append(c.Rounds, Round{Data: data, End: "fin", Segs: randSegs(r)})
+		add(c)
+	}
+	// L. a response that cannot carry a body, declared chunked, on a connection the server keeps open:
+	// the call must return at once (nothing to wait for)
+	for _, h := range []struct{ meth, status string }{{"GET", "304 Not Modified"}, {"GET", "204 No Content"}, {"HEAD", "200 OK"}, {"GET", "304 Not Modified"}} {
+		o, on := randOpts(r)
+		o.Digest, o.Download, o.Callback, o.NoAutoRead = false, "", false, false
+		o.TimeoutMs = 1500
+		c := &Case{Kind: "h1", Method: h.meth, Shape: "nobody-chunked-open:" + h.status[:3] + "+" + on, Opts: o}
+		c.Rounds = []Round{{Data: []byte("HTTP/1.1 " + h.status + "\r\nTransfer-Encoding: chunked\r\nEtag: \"x\"\r\n\r\n"), End: "hold", Hold: 1200}}
+		add(c)
+	}
 	// I. parser-level cases
 	genParserCases(r, quick, add)
 	// J. HTTP/2 frame sequences
 	genH2Cases(r, quick, add)
+	// M. HTTP/3 frame sequences on the response stream, the control stream and further unidirectional streams
+	genH3Cases(r, quick, add)
 	return out
 }
 
